@@ -1110,6 +1110,9 @@ func (c *EvalCtx) call(e *ast.CallExpr) tv {
 			if t == nil {
 				c.errf("typeIs: unknown type")
 			}
+			if _, seen := ex.dynHints[x]; !seen {
+				ex.dynHints[x] = t
+			}
 			return tv{p.And(p.Not(p.Eq(x, p.Int(0))), p.Eq(ex.dynType(x), ex.typeID(t))), types.Typ[types.Bool]}
 		}
 		if gf, ok := ex.P.CS.GhostFields[id.Name]; ok && len(e.Args) == 1 {
